@@ -126,6 +126,8 @@ class World(object):
 
     def __init__(self, plan, max_events=150000):
         use_afkak_src()
+        import logging
+        logging.getLogger("afkak").addHandler(logging.NullHandler())  # afkak._group installs none itself
         cfg = plan["cfg"]
         self.plan = plan
         self.cfg = cfg
